@@ -232,6 +232,7 @@ pub struct Stats {
     pub dedup_ignored: u32,
     pub tie_points: u32,
     pub recover_selected: u32,
+    pub quiet_ticks: u32,
 }
 
 pub struct World {
@@ -412,7 +413,7 @@ impl World {
                             if !in_ever {
                                 self.push("C05", "served-path-not-from-any-lookup".into(), format!("{} with expiry T0+{} was never returned by a lookup", UNIVERSE[id].name, e as i64 - T0 as i64));
                             } else if !in_last && e <= now {
-                                let c = format!("expired-path-served-after-later-lookup-{}{late}", if self.mem.last_lookup_useful == Some(false) { "returned-only-rejected-paths" } else { "succeeded-without-it" });
+                                let c = format!("expired-path-served-after-later-successful-lookup-without-it{late}");
                                 let _ = failed;
                                 self.push("C05", c, format!("{} stems from a lookup older than the most recent successful one and expired {} s ago (\"or an earlier one still valid\")", UNIVERSE[id].name, now - e));
                             }
@@ -617,8 +618,8 @@ impl World {
         if o.set != Set::Err {
             let res: Vec<(usize, u32)> = o.set.ids().iter().map(|id| (*id, expiry_of(o, *id, t, &self.cfg.prof))).collect();
             self.mem.ever.extend(res.iter().copied());
-            // "successful path lookup" = one that returned paths
-            if !res.is_empty() {
+            // "successful path lookup" = one that yielded at least one policy-acceptable path
+            if res.iter().any(|(id, _)| ref_policy_allows(*id)) {
                 self.mem.last_ok = res;
             }
         }
@@ -683,6 +684,36 @@ impl World {
         Ok(tie_point)
     }
 
+    /// Maintenance tick that is due before `next_refetch` (no lookup expected, empty script).
+    fn quiet_tick(&mut self, t: u32) -> Result<(), Stop> {
+        self.now = t;
+        let watch = self.checking || self.trace.is_some();
+        let before = if watch { self.observe() } else { Obs::default() };
+        let calls_before = self.script.0.lock().unwrap().calls;
+        let slot_before = if self.mem.pending.is_empty() { None } else { self.slot_id_now() };
+        let pending = std::mem::take(&mut self.mem.pending);
+        match vpc::catch(|| block_on(self.pr.maintain(at(t)))) {
+            Err(m) => return Err(Stop::Panic(format!("{m} @ {}", panic_loc()))),
+            Ok(Some(reason)) => return Err(Stop::Panic(format!("maintain asked to stop the worker: {reason}"))),
+            Ok(None) => {}
+        }
+        self.stats.quiet_ticks += 1;
+        let calls_after = self.script.0.lock().unwrap().calls;
+        if calls_after != calls_before {
+            // also counted as `unscheduled-lookup` at the end of the replay
+            self.push("C06", "lookup-at-tick-before-next-refetch".into(), format!("maintenance tick at t+{} (before next_refetch) performed {} lookup(s)", t - T0, calls_after - calls_before));
+        }
+        let und = self.pr.undelivered_issues();
+        let consumed: Vec<(usize, u32)> = if und == 0 { pending.clone() } else { vec![] };
+        if und != 0 {
+            self.mem.pending = pending;
+        }
+        self.after_change(&format!("quiet-tick@+{}", t - T0), &before, &consumed);
+        self.note_hits(slot_before, &consumed);
+        self.check_state(&format!("quiet-tick@+{}", t - T0));
+        Ok(())
+    }
+
     /// Check the state at every instant in (self.now, until] at which an oracle can change its verdict
     /// while the subject is idle: each cached path's expiry instant, and `until` itself.
     fn idle_until(&mut self, until: u32) {
@@ -711,8 +742,11 @@ impl World {
             self.late_used = true;
         }
         self.last_tie_points.clear();
+        let mut quiet_last: Option<u32> = None;
+        let mut quiet_at_same_instant = 0u32;
         loop {
-            let due = secs(self.pr.next_maintain_at()).max(self.now as i64);
+            // the real loop's own due instant (PathSet::next_maintain)
+            let due = self.now as i64 + self.pr.next_maintain_in(at(self.now)).as_secs() as i64;
             let mut fire = due;
             if late_pending {
                 fire = due + 1;
@@ -726,6 +760,18 @@ impl World {
                 self.idle_until(fire - 1);
             }
             late_pending = false;
+            if (fire as i64) < secs(self.pr.next_refetch()) {
+                // due for another reason than the refetch schedule (active path's expiry, idle check):
+                // a maintenance tick without lookup, no branching
+                quiet_at_same_instant = if quiet_last == Some(fire) { quiet_at_same_instant + 1 } else { 0 };
+                quiet_last = Some(fire);
+                if quiet_at_same_instant >= 3 {
+                    self.push("C06", "maintenance-tick-rearmed-at-same-instant".into(), format!("next_maintain keeps returning 0 at t+{} although maintain ran 3 times there (busy loop of the worker)", fire - T0));
+                    break;
+                }
+                self.quiet_tick(fire)?;
+                continue;
+            }
             let o = if k < outs.len() {
                 outs[k]
             } else if k < MAX_BRANCH_TICKS.load(std::sync::atomic::Ordering::Relaxed) || outs.is_empty() {
